@@ -4,5 +4,6 @@ pub mod c03;
 pub mod c12;
 pub mod c17;
 pub mod c31;
+pub mod progen;
 pub mod alloc;
 pub mod driver;
